@@ -49,6 +49,8 @@ for _e, _m in MODS.items():
 PANIC_TABLE[("square::Square::offset", "panic", "panic_fmt")] = "documented: panics if the offset leaves the board (try_offset is the total variant)"
 
 TOTAL_CORE = (
+    "str::strip_suffix", "str::strip_prefix", "str::starts_with", "str::ends_with", "str::char_indices", "str::bytes", "str::trim",
+    "core::str::iter::Chars<'a>::as_str", "core::str::iter::", "<_ as core::iter::traits::iterator::Iterator>::next",
     "str::chars", "str::get", "str::parse", "str::split", "str::rsplit", "str::len", "str::is_empty", "str::as_bytes",
     "char::to_digit", "char::to_ascii_lowercase", "char::to_ascii_uppercase", "char::is_ascii_uppercase", "char::is_ascii_lowercase",
     "char::is_ascii_digit", "char::methods::<impl char>::",
